@@ -113,8 +113,8 @@ def slim(c):
 SIZES = {  # per property: harness arguments per tier
     "C01": {"quick": dict(n01=700, n10r=0, n10f=12, n10m=0, n09=0, ncor=20, kf=4),
             "thorough": dict(n01=5000, n10r=0, n10f=60, n10m=0, n09=0, ncor=100, kf=0)},
-    "C10": {"quick": dict(n01=0, n10r=250, n10f=60, n10m=120, n09=0, ncor=0, kf=6),
-            "thorough": dict(n01=0, n10r=1200, n10f=300, n10m=800, n09=0, ncor=0, kf=0)},
+    "C10": {"quick": dict(n01=0, n10r=200, n10f=50, n10m=120, n09=0, ncor=0, kf=6, n10x=120),
+            "thorough": dict(n01=0, n10r=1200, n10f=300, n10m=800, n09=0, ncor=0, kf=0, n10x=1000)},
     "C09": {"quick": dict(n01=0, n10r=0, n10f=0, n10m=0, n09=900, ncor=0, kf=0),
             "thorough": dict(n01=0, n10r=0, n10f=0, n10m=0, n09=8000, ncor=0, kf=0)},
 }
